@@ -63,6 +63,8 @@ impl TSpec {
 
 struct Scenario {
     batches: Vec<Vec<TSpec>>,
+    /// the probe's allocator gives freed blocks back at once (addresses are reused immediately)
+    no_quarantine: bool,
 }
 
 impl Scenario {
@@ -70,7 +72,7 @@ impl Scenario {
         self.batches.iter().flatten().find(|s| s.tag == tag)
     }
     fn args(&self) -> Vec<String> {
-        let mut a = vec![MODE_TRACED.to_string(), self.batches.len().to_string()];
+        let mut a = vec![(MODE_TRACED | if self.no_quarantine { MODE_NO_QUARANTINE } else { 0 }).to_string(), self.batches.len().to_string()];
         for b in &self.batches {
             a.push(b.len().to_string());
             for s in b {
@@ -120,7 +122,10 @@ fn gen_scenario(dec: &mut Dec, flavor: Flavor, tier: Tier) -> Scenario {
         }
         batches.push(b);
     }
-    Scenario { batches }
+    // one run in four: no quarantine in the probe's allocator, a freed join state is reused by the
+    // next spawn at once (a late wake or write aimed at the old one then meets the new one)
+    let no_quarantine = dec.chance(K::Cfg, 1, 4);
+    Scenario { batches, no_quarantine }
 }
 
 fn probe_path(profile: &str) -> PathBuf {
@@ -492,6 +497,9 @@ fn run_case(flavor: Flavor, case: u64, mut dec: Dec, opts: &RunOpts) -> RunOut {
     }
     // half of the runs freeze a thread that was preempted inside a window for a few quanta
     cfg.window_hold_max = *dec.pick(K::Cfg, &[0u32, 0, 6, 16]);
+    // the kernel clears a thread's tid word and wakes its futex in two steps: the wake may come
+    // a few quanta after the zero is visible
+    cfg.defer_ctid_wake_max = *dec.pick(K::Cfg, &[0u32, 0, 4, 24]);
     if std::env::var_os("PTSIM_FAULT_MUNMAP").is_some() {
         // exploration only: shows that the stack ledger reacts; never part of a registered command
         cfg.faults = FaultCfg { mmap_stack: false, clone: false, munmap: true, spurious_futex: false, num: 1, den: 6, max_per_run: 1 };
